@@ -381,12 +381,19 @@ def _case(draw):
         nq = draw(st.integers(1, 4))
         Xq = []
         for _ in range(nq):
-            kind = draw(st.sampled_from(["fresh", "fresh", "train", "far"]))
+            kind = draw(st.sampled_from(["fresh", "fresh", "train", "far",
+                                         "very_far"]))
             if kind == "train" and n:
                 Xq.append(list(X[draw(st.integers(0, n - 1))]))
             elif kind == "far":
                 sign = draw(st.sampled_from([-1.0, 1.0]))
                 Xq.append([sign * 60.0] * d)
+            elif kind == "very_far":
+                # heterogeneous batches: extrapolation rows next to ordinary
+                # rows (linear scores differ by orders of magnitude)
+                sign = draw(st.sampled_from([-1.0, 1.0]))
+                mag = draw(st.sampled_from([600.0, 1.0e4]))
+                Xq.append([sign * mag] + [0.0] * (d - 1))
             else:
                 Xq.append(draw(st.lists(coord, min_size=d, max_size=d)))
 
